@@ -146,7 +146,9 @@ def write_inputs(rng, fmt, work):
 def write_transform(rng, work, sim_ok, ext):
     R = gen.rot_of_class(rng, ["uniform", "axis_aligned", "quarter_turns", "small"][rng.integers(4)])
     t = rng.normal(size=3) * ext * 10.0**rng.uniform(-1, 1)
-    if rng.random() < .25:
+    if rng.random() < .15:
+        R = np.eye(3)  # a pure translation (/ scaling): the rotation block is exactly the identity
+    elif rng.random() < .25:
         t = np.zeros(3)  # a pure rotation (/ scaling) about the origin
     s = 10.0**rng.uniform(-0.5, 0.5) if (sim_ok and rng.random() < .5) else 1.0
     if sim_ok and s != 1.0 and rng.random() < .3:
